@@ -294,7 +294,8 @@ func (SettleMonitor) Post(e *Explorer, before, w *World, pre interface{}, ev *Ev
 			wantReturned = S.Add(F).Sub(B)
 		}
 		explained := math.ZeroInt()
-		if d := returned.Sub(wantReturned).Abs(); d.GT(math.NewInt(8)) {
+		// (with several disputes executing in one block the backers' stake change cannot be attributed to one of them)
+		if d := returned.Sub(wantReturned).Abs(); settling == 1 && d.GT(math.NewInt(8)) {
 			c3 := "other"
 			// exact prediction of the known multi-round defect: every later round's fee is both added to the burn amount
 			// and left out of the amount returned, i.e. the backers miss exactly the later-round fees (+ from-bond truncation)
